@@ -186,12 +186,14 @@ Theorem C05_synced_records_survive : forall opt seg meta ops s junk,
 Proof. exact synced_records_survive. Qed.
 Print Assumptions C05_synced_records_survive.
 
-(* ---------- (c) ReadAll's fold: last write per index wins, what follows is truncated ---------- *)
+(* ---------- (c) ReadAll's fold: last write per index wins, what follows is truncated ----------
+   for ANY sequence of entry records read at snapshot index [start] (as fixed by /repo 82bb7ac: an entry at or
+   before the snapshot index empties what was collected): the result is exactly the visible entries beyond
+   the snapshot — the same log whichever snapshot the wal is opened at *)
 Theorem C05_readall_entries_visible : forall start es ents,
-  (forall e, In e es -> start < e_index e) ->
   place_all start [] es = Some ents ->
-  ents = visible es /\ contiguous start ents.
-Proof. intros start es ents H1 H2. exact (place_all_visible start es [] [] ents H1 I eq_refl H2). Qed.
+  ents = filter (fun x => start <? e_index x) (visible es) /\ contiguous start ents.
+Proof. intros start es ents H. exact (place_all_visible start es [] [] ents I eq_refl H). Qed.
 Print Assumptions C05_readall_entries_visible.
 
 Theorem C05_visible_characterised : forall es e,
